@@ -717,7 +717,7 @@ primaryexpr(struct scope *s)
 			if (!end[0])
 				e->type = &typedouble;
 			else if (tolower(end[0]) == 'f' && !end[1])
-				e->type = &typefloat;
+				e->type = &typefloat, e->u.constant.f = (float)e->u.constant.f;
 			else if (tolower(end[0]) == 'l' && !end[1])
 				e->type = &typeldouble;
 			else
